@@ -1135,7 +1135,7 @@ func main() {
 	if thorough {
 		nCfgs = 10
 		stride = 12
-		coqStride = 199
+		coqStride = 307
 		classCap = 2
 	}
 	// the witness of Props/C05.v mount_independent_refuted, replayed on both implementations first: collection a with
@@ -1190,6 +1190,9 @@ func main() {
 		rels := relPaths(t, thorough)
 		deepThorough := thorough && len(t.nodes) > 3
 		for ci := 0; ci < nCfgs; ci++ {
+			if deepThorough && ci >= 6 {
+				break // deep trees: the six configurations of the quick tier
+			}
 			var c Cfg
 			c.Impl = im.name
 			if ci == 0 {
